@@ -741,8 +741,59 @@ def run_alias(case):
                                  "alias_equal=%s" % (len(set(len(r) for r in rows)) == 1)])
 
 
+# ---------------------------------------------------------------------------
+# operators on special float values (NaN, +-inf, -0.0): element-wise with numpy semantics
+
+SPECIAL = st.sampled_from([float("nan"), float("inf"), float("-inf"), -0.0, 0.0, 1.0, -1.5, 2.0, 3.0])
+
+
+@st.composite
+def special_case(draw):
+    n = draw(st.integers(1, 4))
+    lens = [draw(st.integers(1, 4)) for _ in range(n)]
+    rows = [draw(st.lists(SPECIAL, min_size=L, max_size=L)) for L in lens]
+    other = draw(st.sampled_from(["scalar", "ragged"]))
+    return {"rows": rows, "other": other,
+            "orows": [draw(st.lists(SPECIAL, min_size=L, max_size=L)) for L in lens],
+            "s": draw(SPECIAL), "name": draw(st.sampled_from(["eq", "ne", "lt", "le", "gt", "ge", "add", "sub", "mul"])),
+            "then_mask_set": draw(st.booleans())}
+
+
+def run_special(case):
+    rows = [np.array(r, dtype=float) for r in case["rows"]]
+    a = ra.RaggedArray([r.copy() for r in rows])
+    if case["other"] == "scalar":
+        o, om = case["s"], [case["s"]] * len(rows)
+    else:
+        om = [np.array(r, dtype=float) for r in case["orows"]]
+        o = ra.RaggedArray([r.copy() for r in om])
+    name = case["name"]
+    with np.errstate(all="ignore"):
+        res = getattr(a, "__%s__" % name)(o)
+        want = [getattr(r, "__%s__" % name)(x) for r, x in zip(rows, om)]
+    require(type(res) is ra.RaggedArray, "operator %s did not return a RaggedArray" % name)
+    require([int(x) for x in res.lengths] == [len(w) for w in want], "operator %s lost the row structure" % name)
+    wf = np.concatenate(want)
+    rf = res.flatten()
+    require(rf.dtype == wf.dtype and np.array_equal(rf, wf, equal_nan=True),
+            "operator %s is not element-wise on special values" % name, got=rf.tolist(), want=wf.tolist(),
+            left=np.concatenate(rows).tolist(), right=(np.concatenate(om).tolist() if case["other"] == "ragged" else o))
+    require(np.array_equal(a.flatten(), np.concatenate(rows), equal_nan=True), "operator altered its left operand")
+    if case["then_mask_set"] and wf.dtype == bool:
+        # the comparison result used as a mask for assignment must hit exactly the True cells
+        a[res] = 7.0
+        for r, w in zip(rows, want):
+            r[w] = 7.0
+        require(np.array_equal(a.flatten(), np.concatenate(rows), equal_nan=True),
+                "mask assignment through a comparison on special values wrote the wrong cells",
+                got=a.flatten().tolist(), want=np.concatenate(rows).tolist())
+    has_nan = bool(np.isnan(np.concatenate(rows)).any())
+    return Info(has_nan and len(rows) >= 2, ["special_op=" + name, "special_other=" + case["other"], "has_nan=%s" % has_nan])
+
+
 CLAUSES = [
     Clause("history", None, run_history, quick=900, thorough=16000, stateful=make_machine, steps=30),
     Clause("copy_no_alias", alias_case(), run_alias, quick=400, thorough=8000),
+    Clause("operators_special_values", special_case(), run_special, quick=500, thorough=10000),
 ]
 MATCHERS = {}
